@@ -245,3 +245,89 @@ Theorem rich_block_contributes :
 Proof. exact AnnCorollaries.rich_block_contributes. Qed.
 Print Assumptions rich_block_contributes.
 
+
+(* presentational attributes (Proofs/AttrColours.v): the inline declarations of an element are
+   exactly those of its style / color / bgcolor attributes in attribute order; color= never
+   gives a background declaration nor bgcolor= a text colour, and each leaves every other
+   cell of the computed style untouched *)
+From H2T Require Import Base Tagged Wrap Sub Css Dom Render Api CssParse Proofs.CssTotal Proofs.WrapInv Proofs.RenderWidth Proofs.Conserve Proofs.Footnotes Proofs.AnnBalance Proofs.RenderConserve Proofs.OptionRel Proofs.Compose Proofs.RenderTotal Proofs.FragStream Proofs.SimRel Proofs.Prune Proofs.AttrColours.
+
+Theorem inline_styles_spec :
+  forall (attrs : list (text * text)) (l : list styledecl),
+       inline_styles attrs = Ok l <->
+       (exists ls : list (list styledecl), Forall2 attr_spec attrs ls /\ l = concat ls).
+Proof. exact AttrColours.inline_styles_spec. Qed.
+Print Assumptions inline_styles_spec.
+
+Theorem inline_styles_always :
+  forall attrs : list (text * text),
+       exists ls : list (list styledecl), Forall2 attr_spec attrs ls /\ inline_styles attrs = Ok (concat ls).
+Proof. exact AttrColours.inline_styles_always. Qed.
+Print Assumptions inline_styles_always.
+
+Theorem style_attribute_fail :
+  forall v : text, parse_rules v = PFail -> parse_style_attribute v = Ok [].
+Proof. exact AttrColours.style_attribute_fail. Qed.
+Print Assumptions style_attribute_fail.
+
+Theorem colour_attr_no_bg :
+  forall (k v : text) (l : list styledecl),
+       cps k = s_colorattr ->
+       attr_spec (k, v) l ->
+       Forall (fun d : styledecl => CascadeDom.st_bg (sd_style d) = None /\ sd_important d = false) l.
+Proof. exact AttrColours.colour_attr_no_bg. Qed.
+Print Assumptions colour_attr_no_bg.
+
+Theorem bg_attr_no_colour :
+  forall (k v : text) (l : list styledecl),
+       cps k = s_bgcolor ->
+       attr_spec (k, v) l ->
+       Forall (fun d : styledecl => CascadeDom.st_colour (sd_style d) = None /\ sd_important d = false) l.
+Proof. exact AttrColours.bg_attr_no_colour. Qed.
+Print Assumptions bg_attr_no_colour.
+
+Theorem bgcolor_attr_other_cells :
+  forall (attrs : list (text * text)) (inl : list styledecl),
+       inline_styles attrs = Ok inl ->
+       exists inl' : list styledecl,
+         inline_styles (remove_attr s_bgcolor attrs) = Ok inl' /\
+         (forall (sd : styledata) (p : list anc) (which : option pseudo),
+          let c := CascadeDom.core_at which (computed_style sd p inl) in
+          let c' := CascadeDom.core_at which (computed_style sd p inl') in
+          c_colour c = c_colour c' /\
+          c_display c = c_display c' /\ c_white_space c = c_white_space c' /\ c_content c = c_content c').
+Proof. exact AttrColours.bgcolor_attr_other_cells. Qed.
+Print Assumptions bgcolor_attr_other_cells.
+
+Theorem color_attr_other_cells :
+  forall (attrs : list (text * text)) (inl : list styledecl),
+       inline_styles attrs = Ok inl ->
+       exists inl' : list styledecl,
+         inline_styles (remove_attr s_colorattr attrs) = Ok inl' /\
+         (forall (sd : styledata) (p : list anc) (which : option pseudo),
+          let c := CascadeDom.core_at which (computed_style sd p inl) in
+          let c' := CascadeDom.core_at which (computed_style sd p inl') in
+          c_bg c = c_bg c' /\
+          c_display c = c_display c' /\ c_white_space c = c_white_space c' /\ c_content c = c_content c').
+Proof. exact AttrColours.color_attr_other_cells. Qed.
+Print Assumptions color_attr_other_cells.
+
+Theorem text_below_bgcolor :
+  forall (sd : styledata) (d : deco) (name : text) (pre : list (text * text)) 
+         (k v : text) (post : list (text * text)) (idx : Z) (p : list anc) (c : N * N * N) 
+         (t : tag) (c1 c2 : list (list anc)),
+       let attrs := pre ++ (k, v) :: post in
+       let me := {| a_name := name; a_attrs := attrs; a_idx := idx |} :: p in
+       d_colours d = true ->
+       cps k = s_bgcolor ->
+       parse_color_attribute v = Ok (Some c) ->
+       no_attr s_style attrs = true ->
+       no_attr s_bgcolor post = true ->
+       Forall (fun d0 : Cascade.cdecl (N * N * N) => Cascade.cd_important d0 = false)
+         (CascadeDom.proj CascadeDom.st_bg None (CascadeDom.applicable sd me [])) ->
+       Forall (fun m : list anc => CascadeDom.elem_bg sd true inline_styles d m = None) c2 ->
+       Inherit.last_bg t =
+       Inherit.last_some (CascadeDom.elem_bg sd true inline_styles d) (c1 ++ me :: c2) None ->
+       Inherit.last_bg t = Some c.
+Proof. exact AttrColours.text_below_bgcolor. Qed.
+Print Assumptions text_below_bgcolor.
